@@ -105,6 +105,10 @@ def run(ctx: Ctx) -> Report:
             pcs += new
             pcases += [{"policy": [kind, seed, ctx.pick(4, 12), n], "index": i} for i in range(len(new))]
     pv = judge(ctx, rep, "C16", pcs, pcases, "policies")
+    # SAC policy (continuous actions): key-less = mode of the sampled law, also for asymmetric bounds
+    sac_specs = [(-2.0, 2.0), (0.0, 1.0), (2.0, 5.0), ([-1.0, 0.0], [1.0, 4.0]), ([-3.0, -2.0, 1.0], [-1.0, 2.0, 1.5])][:ctx.pick(4, 5)]
+    sevs = [dl.sac_policy_case(lo, hi, ctx.rng.randrange(10 ** 6)) for lo, hi in sac_specs]
+    judge(ctx, rep, "C16", sevs, [{"sac": [lo, hi]} for lo, hi in sac_specs], "sac_policy")
     # binding self-test: a masked action chosen; a non-greedy key-less action
     good = [i for i in sorted(pv.accepted) if pcs[i]["mode"] == "greedy" and len(pcs[i]["comps"][0]["ranks"]) >= 2]
     m1 = copy.deepcopy(pcs[good[0]])
@@ -135,6 +139,8 @@ def replay(ctx: Ctx, driver: str, case: dict) -> Report:
         kind, args = case["law"]
         args = [tuple(a) if isinstance(a, list) and kind == "multi" and i == 0 else a for i, a in enumerate(args)]
         evs = [record_law((kind, tuple(args)))]
+    elif "sac" in case:
+        evs = [dl.sac_policy_case(case["sac"][0], case["sac"][1], case.get("seed", 1))]
     else:
         kind, seed, nk, n = case["policy"]
         evs = [dl.policy_cases(kind, seed, nk, n)[case["index"]]]
